@@ -221,7 +221,9 @@ func (c *Ctx) alwaysBool(v ssa.Value, b bool, depth int) bool {
 // callback must be the constant that means "continue" (which constant that is, is read off the branch with which the
 // walking function tests the callback's result), and the binding function must not return before the traversal ran —
 // except when there are no values at all (then nothing can be bound).
-// Binding that does not go through Walk with a function literal / named function is reported as undecided.
+// Binding that does not go through Walk with a function literal / named function is reported as undecided — unless the
+// binding function rebuilds the query copy-on-write (cowBindAll, rules_ag33.go), for which the same question (is every
+// node visited, is every bound operand kept) is decided on the node binder's cases and the list binder's loop.
 func bindAllRule(c *Ctx, rule string) {
 	fn := c.a.ReplacePH
 	name := safeFname(fn)
@@ -254,6 +256,11 @@ func bindAllRule(c *Ctx, rule string) {
 		})
 	}
 	if len(sites) == 0 {
+		// no Walk: the binding function may rebuild the query instead (a node binder that returns a node unchanged or a
+		// new node with the bound operands); that such a rebuild reaches every node is decided in rules_ag33.go
+		if cowBindAll(c, rule) {
+			return
+		}
 		c.r.undecided(rule, name, "the binding function does not traverse the query with Walk; that every occurrence of a placeholder is visited is decided for Walk with a callback only", c.w.pos(fn.Pos()))
 		return
 	}
